@@ -182,6 +182,11 @@ where
     unsafe fn span(eoi: &mut Self::Cache, range: Range<&Self::Cursor>) -> Self::Span {
         match range.start.0.clone().next() {
             Some((_, s)) => {
+                if range.start.1 == range.end.1 {
+                    // Nothing was consumed: produce an empty span between the neighbouring tokens
+                    let at = range.end.2.clone().unwrap_or_else(|| s.start());
+                    return S::new(eoi.context(), at.clone()..at);
+                }
                 let end = range.end.2.clone().unwrap_or_else(|| eoi.end());
                 S::new(eoi.context(), s.start()..end)
             }
